@@ -19,7 +19,7 @@ if os.environ.get("PYTHONHASHSEED") != "0" or os.environ.get("PYTHONDONTWRITEBYT
 
 HERE = os.path.dirname(os.path.abspath(__file__))
 sys.path.insert(0, HERE)
-sys.path.insert(0, "/repo")
+sys.path.insert(0, os.environ.get("VERIF_REPO_ROOT", "/repo"))  # /repo unless the tooling points at a scratch copy (tools/try_mutant.sh)
 sys.dont_write_bytecode = True
 
 
